@@ -82,16 +82,20 @@ func init() {
 		}, "per step: threshold 0-3, 1-3 authorized keys, `threshold` honest links (one too few in a quarter of the steps) plus 0-3 extra files drawn from: tampered, unsigned, foreign key, key of another step, key of an EARLIER step of the same layout (listed and defined there), content for this step under the signature the same functionary made for an earlier step, forged key id, extra signatures, duplicate under another infix, an already counted functionary again under a letter-case variant of its key id, wrong name length, garbage, undecodable signature, corrupted signature, certificate-signed (good / expired / foreign-root / missing-intermediate chains, forged first key id), steps authorized by ONE certificate constraint alone with threshold 2-3 and that many (or one fewer) distinct certificate holders; both wrappers; compared: verdict and summary. Class = (population kinds, verdict).")
 	}
 	props["C05"] = func(r *Runner, tier string, rng *Rng) {
-		runChains(r, rng, tierN(tier, 250, 6000), func(i int) *ChainCfg {
+		runChains(r, rng, tierN(tier, 360, 6000), func(i int) *ChainCfg {
 			cfg := baseCfg(rng, "C05")
 			cfg.Thresholds = []int{1, 2, 2, 3}
 			cfg.Differ = rng.Chance(60)
 			cfg.SurplusPct = 30 // more counted links than the threshold: ALL of them have to agree
 			cfg.EmptyLastPct = 20
 			cfg.UncleanNamesPct = 20
-			if rng.Chance(25) {
+			if rng.Chance(35) {
 				cfg.Depth = 1
-				cfg.TwinSubPct = 70
+				cfg.TwinSubPct = 90
+				cfg.CleanSteps = true // nothing else is wrong: the twin's own directory decides
+				cfg.Differ = false
+				cfg.PopKinds, cfg.ExtraPerStep = nil, 0
+				cfg.Thresholds = []int{2, 2, 3}
 			} else if rng.Chance(25) {
 				// flawless multi-step chains whose last step often reports no products: the rules of
 				// every step are evaluated against that step's own agreed set
@@ -112,7 +116,8 @@ func init() {
 				// the disagreement (or agreement) of the counted links is to DECIDE: nothing else is wrong
 				cfg.CleanSteps = true
 				cfg.PopKinds, cfg.ExtraPerStep = nil, 0
-				cfg.Thresholds = []int{2, 2, 3}
+				cfg.Thresholds = []int{1, 2, 2, 3}
+				cfg.SurplusPct = 60 // often one counted link MORE than the threshold asks for: all of them have to agree
 			}
 			return cfg
 		}, "1-3 steps with thresholds 1-3, in 30% one counted link more than the threshold; counted links agree or one of them differs in one product path / digest / presence / hash algorithm set; the last step of a multi-step layout reports no products in a fifth of the cases; in a fifth of the chains every link records its artifacts under names that are not clean paths (./src/main.c) - rules see the clean names, the summary the recorded ones; 40% carry an inspection, often named like the first or last step; uncounted links (foreign, unsigned, tampered, forged id) carry other artifacts; rules strict (MATCH + DISALLOW *), lenient or random; the requested summary name carries leading/trailing blanks, tabs, line ends in a quarter of the cases; compared: verdict and the summary's name, materials and products. Class = (differ?, kinds, verdict).")
